@@ -128,7 +128,8 @@ def sanitizer_summary(stderr):
 	txt = stderr.decode(errors = "replace")
 	for line in txt.splitlines():
 		if "runtime error:" in line or "ERROR: AddressSanitizer" in line or "SUMMARY:" in line:
-			return line.strip()[:400]
+			import re
+			return re.sub(r"/\S*/build/[^/ ]+/", "", line.strip())[:400]
 	return None
 
 
@@ -163,7 +164,7 @@ def run_cases(binary, cases, timeout = 600, args = ()):
 	guard = 0
 	while start < len(cases):
 		guard += 1
-		if guard > 200:
+		if guard > 25:
 			break
 		blob = b"".join(cases[start:])
 		rc, out, err = run(binary, blob, args = args, timeout = timeout)
